@@ -60,7 +60,7 @@ ActiveAfter(as, t) ==
 BgVerdict(r) ==
     IF Has(r, "abort") THEN V("C18", "the process died or hung in a background scenario")
     ELSE LET i == r.input IN
-    IF i.pattern = "sync" THEN
+    IF i.pattern \in {"sync", "sync-busy"} THEN
         LET w == r.sync_wakes n == Len(w) IN
         IF n = 0 THEN V("C18", "interval sync never ran")
         ELSE IF MaxGap(w, 0, 0) > r.interval_ms + SlackMs \/ r.observed_ms - w[n] > r.interval_ms + SlackMs
@@ -74,6 +74,13 @@ BgVerdict(r) ==
         ELSE OK
     ELSE IF i.policy = "never" THEN
         IF r.merge_starts # <<>> \/ r.hint_files > 0 THEN V("C18", "a merge ran although the merge policy is 'never'") ELSE OK
+    ELSE IF i.pattern = "frag-fault" THEN
+        \* the first background merge fails; the trigger stays exceeded, so a second attempt must follow
+        \* within one more check interval (plus jitter and slack) of the first
+        IF Len(r.merge_starts) = 0 THEN V("C18", "a trigger is exceeded but no merge started")
+        ELSE IF ~(\E k \in 2..Len(r.merge_starts) : r.merge_starts[k] <= r.merge_starts[1] + r.interval_ms + r.jitter_ms + SlackMs)
+               THEN V("C18", "after a background merge failed no further merge is attempted although the trigger is still exceeded")
+        ELSE OK
     ELSE IF i.pattern \in {"frag", "dead"} THEN
         IF ~r.can_merge THEN V("drift", "the write pattern did not cross the trigger")
         ELSE IF ~(\E k \in 1..Len(r.merge_starts) : r.merge_starts[k] <= r.crossed_at + r.interval_ms + r.jitter_ms + SlackMs)
